@@ -32,6 +32,7 @@ func init() {
 		Guards: func(m *mon.Merged, tier string) []string {
 			var out []string
 			need(m, &out, "snapshots_taken", 5000)
+			need(m, &out, "long_stream_alias_runs", 6)
 			need(m, &out, "snapshot_recomparisons", 50000)
 			need(m, &out, "pool_recycles_forced", 100)
 			need(m, &out, "muxer_input_recomparisons", 500)
@@ -72,6 +73,28 @@ func runC16(c *mon.Ctx) {
 		if i < 2 {
 			c.Sample("alias", map[string]any{"stream1_packets": len(s1.Packets), "stream2_packets": len(s2.Packets), "apis": "data, packet"})
 		}
+	}
+	// long streams: results must stay intact while thousands of further packets are read (read buffers that are reused late)
+	nlong := c.Pick(6, 60)
+	for i := int64(0); i < nlong; i++ {
+		if !c.Mine("alias-long", i) {
+			continue
+		}
+		r := c.Rng("alias-long", i)
+		m1 := gen.RandomModel(r, gen.ModelOpts{MaxPES: 3, MaxPMT: 1, MaxSI: 2, MaxUnits: 40, MaxPESLen: 6000})
+		for len(m1.PIDs) < 2 {
+			m1 = gen.RandomModel(r, gen.ModelOpts{MaxPES: 3, MaxPMT: 1, MaxSI: 2, MaxUnits: 40, MaxPESLen: 6000})
+		}
+		s1 := m1.Build(r)
+		for len(s1.Packets) < 2200 {
+			m1 = gen.RandomModel(r, gen.ModelOpts{MaxPES: 3, MaxPMT: 1, MaxSI: 2, MaxUnits: 60, MaxPESLen: 9000})
+			s1 = m1.Build(r)
+		}
+		s2 := richStream(r)
+		aliasCase(c, i, r, s1, s2, []string{"packet", "data"}[i%2])
+		c.Count("long_stream_alias_runs")
+		c.Max("long_stream_packets", int64(len(s1.Packets)))
+		c.Case(mon.HashBytes("alias-long", s1.Bytes[:1880]), true)
 	}
 	nm := c.Pick(150, 20000)
 	for i := int64(0); i < nm; i++ {
@@ -223,8 +246,13 @@ func muxAliasCase(c *mon.Ctx, idx int64, r *rand.Rand) {
 	}
 	m.SetPCRPID(0x100)
 	for k := 0; k < 3+r.IntN(10); k++ {
-		payload := gen.Bytes(r, 1+r.IntN(2000))
-		hold(payload, "PES.Data")
+		// the payload is a sub-slice of a larger caller buffer (spare capacity behind it): the whole buffer is protected
+		backing := gen.Bytes(r, 1+r.IntN(2000)+r.IntN(300))
+		payload := backing[:len(backing)-r.IntN(min(len(backing), 300))]
+		if len(payload) == 0 {
+			payload = backing
+		}
+		hold(backing, "PES.Data backing buffer")
 		d := &astits.MuxerData{PID: uint16(0x100 + r.IntN(npid)), PES: &astits.PESData{Header: &astits.PESHeader{OptionalHeader: gen.OptionalHeader(r, -1, -1, true)}, Data: payload}}
 		if d.PES.Header.OptionalHeader.HasPrivateData {
 			hold(d.PES.Header.OptionalHeader.PrivateData, "PES private data")
@@ -246,6 +274,25 @@ func muxAliasCase(c *mon.Ctx, idx int64, r *rand.Rand) {
 		if r.IntN(4) == 0 {
 			m.WriteTables()
 			if !check("after WriteTables") {
+				return
+			}
+		}
+		if r.IntN(3) == 0 {
+			// WritePacket with a short payload cut out of a caller buffer holding several sections back to back
+			carousel := gen.Bytes(r, 40+r.IntN(300))
+			hold(carousel, "WritePacket payload backing buffer")
+			n := 1 + r.IntN(min(len(carousel), 150))
+			p := &astits.Packet{Header: astits.PacketHeader{PID: 0x1500, HasPayload: true, PayloadUnitStartIndicator: true, ContinuityCounter: uint8(k)}, Payload: carousel[:n]}
+			if r.IntN(2) == 0 {
+				p.Header.HasAdaptationField = true
+				p.AdaptationField = gen.RandomAF(r, 1+r.IntN(20), -1, -1)
+				hold(p.AdaptationField.TransportPrivateData, "WritePacket adaptation private data")
+			}
+			if pn, v, st := mon.Guarded(func() { m.WritePacket(p) }); pn {
+				c.Violate("C16/alias/muxer-panic", "mux-alias", idx, fmt.Sprintf("%v\n%s", v, st), nil)
+				return
+			}
+			if !check("after WritePacket") {
 				return
 			}
 		}
